@@ -241,6 +241,8 @@ class EditMedia(HTMLHandlerBase):
     @csrf_token_required(service='files', next_url=next_url)
     def post(self, spk: int, mfid: int) -> flask.Response:
         mf = current_media_file
+        if mf.representation is None:
+            return flask.make_response('Media file needs indexing', 400)
         current_values: dict[str, str | int] = {
             'track_id': mf.track_id,
             'lang': mf.representation.lang,
